@@ -5,7 +5,7 @@ from props import qcommon as qc
 
 
 class Grammar(qc.SyncOps, qc.QGrammar):
-    thread_kinds = [("once", 10), ("work", 1), ("yield", 1)]
+    thread_kinds = [("once", 12), ("work", 1), ("yield", 1), ("oncestorm", 1)]
     body_kinds = [("work", 1)]
     max_depth = 0
     nonce = 12
@@ -16,6 +16,15 @@ class Grammar(qc.SyncOps, qc.QGrammar):
         P.features.add("predicates=%d" % P.nonce)
 
     def emit(self, P, kind, a, b, c, bodies, env):
+        if kind == "oncestorm":
+            # many callers (up to 300 extra threads) pile up on one predicate while its initialiser is parked on a gate that the
+            # harness opens once everything is blocked; all of them must be released when it completes
+            if env.thread != 0 or getattr(P, "storms", 0) >= 2:
+                return None
+            P.storms = getattr(P, "storms", 0) + 1
+            n = [2, 9, 64, 127, 128, 129, 200, 300][b % 8]
+            P.features.add("storm>=128" if n >= 128 else "storm<128")
+            return P.op(env.ctx, "oncestorm", a=a % P.nonce, b=P.gate(), c=n, thread=env.thread, pred=a % P.nonce, n=n)
         r = self.emit_sync_op(P, kind, a, b, c, bodies, env)
         if r is not None or kind == "once":
             return r
@@ -26,7 +35,8 @@ class Check(E3Check):
     prop = "C09"
     mc_workers = 3
     rule = ("Hypothesis recipe -> program in which 2-6 threads call dispatch_once / dispatch_once_f (block and _f form, through the public inline fast path) on 2-48 "
-            "zero-initialised predicates in generated orders with generated skews; initialisers of varied length write a plain record. Oracles: per predicate the "
+            "zero-initialised predicates in generated orders with generated skews; initialisers of varied length write a plain record; a 'storm' op lets 2-300 extra "
+            "threads pile up on one predicate while its initialiser is parked until everything else is blocked. Oracles: per predicate the "
             "initialiser started exactly once; no caller's return stamp precedes the initialiser's end stamp; every caller sees the record after returning. "
             "Non-trivial: for some predicate a caller's call fell inside the initialiser's [start,end] (waiter/broadcast path); distinct = distinct program texts.")
     assumptions = ["one-sided stamp logic (DESIGN S2)"]
